@@ -10,8 +10,8 @@ from ..runner import PropertyCheck
 KINDS = {
     "C01": {"stale-result", "stale-input"},
     "C02": {"ran-twice", "false-reason", "null-build-ran"},
-    "C05": {"callback-after-return", "leak", "cancel-ignored", "stall", "crash", "stale-result", "stale-input"},
-    "C06": {"protocol", "schedule-dependent"},
+    "C05": {"callback-after-return", "leak", "cancel-ignored", "stall", "crash", "stale-result", "stale-input", "queue-lifetime"},
+    "C06": {"protocol", "schedule-dependent", "queue-lifetime", "stall"},
     "C07": {"bad-cycle", "missed-cycle", "false-cycle", "stall", "crash", "spurious-failure"},
 }
 
